@@ -296,6 +296,9 @@ structure Script where
   lens : List Nat := [1]
   kinds : List Ending := [.term]
   leave : List Nat := []
+  /-- per-episode leave vectors, cycled by episode like `lens` (episodes with different finishing orders of the
+      agents); empty = `leave` applies to every episode -/
+  leaves : List (List Nat) := []
   sizes : List (List Nat) := []
 deriving Repr
 
@@ -317,6 +320,11 @@ def chunkVals (e p t a k z n : Nat) : List Int :=
 def Script.lenOf (c : Script) (ep : Nat) : Nat := max 1 (c.lens.getD ((ep - 1) % c.lens.length) 1)
 def Script.kindOf (c : Script) (ep : Nat) : Ending := c.kinds.getD ((ep - 1) % c.kinds.length) .term
 
+/-- the step at which agent `a` leaves episode `ep` (0 = stays) -/
+def Script.leaveOf (c : Script) (ep a : Nat) : Nat :=
+  if c.leaves.isEmpty then c.leave.getD a 0
+  else (c.leaves.getD ((ep - 1) % c.leaves.length) []).getD a 0
+
 def Ending.flags : Ending → Nat → Bool × Bool
   | .term, _ => (true, false)
   | .trunc, _ => (false, true)
@@ -336,7 +344,7 @@ def scripted (c : Script) : Env EState Rat Int Rat Info where
     let L := c.lenOf s.ep
     let kind := c.kindOf s.ep
     (s', (List.range c.sizes.length).map (fun a =>
-      let k := c.leave.getD a 0
+      let k := c.leaveOf s.ep a
       let leaves := decide (0 < k) && decide (k < L)
       if leaves && decide (s'.t > k) then none
       else
@@ -383,7 +391,8 @@ def parseSeed? : String → Option (Option Nat)
   | "none" => some none
   | w => (parseNat? w).map some
 
-/-- `<id> <nl> l_1 … l_nl <nk> k_1 … k_nk leave_0 … leave_{A-1}` -/
+/-- `<id> <nl> l_1 … l_nl <nk> k_1 … k_nk leave_0 … leave_{A-1}`, optionally followed by further groups of `A`
+    leave steps: with `m > 1` groups, group `(p - 1) % m` applies to episode `p` -/
 def parseScript? (sizes : List (List Nat)) (ws : List String) : Option Script :=
   match ws with
   | id :: nl :: rest =>
@@ -393,11 +402,14 @@ def parseScript? (sizes : List (List Nat)) (ws : List String) : Option Script :=
       match parseNats? (rest.take nl), parseNat? (rest.getD nl "") with
       | some lens, some nk =>
         let rest2 := rest.drop (nl + 1)
-        if nk = 0 ∨ rest2.length ≠ nk + sizes.length then none else
+        let A := sizes.length
+        if nk = 0 ∨ A = 0 ∨ rest2.length < nk + A ∨ (rest2.length - nk) % A ≠ 0 then none else
         match allSome ((rest2.take nk).map parseEnding?), parseNats? (rest2.drop nk) with
         | some kinds, some leave =>
           if lens.any (· = 0) then none
-          else some { id := id, lens := lens, kinds := kinds, leave := leave, sizes := sizes }
+          else if leave.length = A then some { id := id, lens := lens, kinds := kinds, leave := leave, sizes := sizes }
+          else some { id := id, lens := lens, kinds := kinds, leave := leave.take A, leaves := chunks A leave,
+                      sizes := sizes }
         | _, _ => none
       | _, _ => none
     | _, _ => none
